@@ -8,7 +8,9 @@ SPEC = {'level': 'exploration',
              'target': 'c23_template',
              'cases_quick': 800,
              'cases_thorough': 9000,
-             'min_cases_quick': 400,
+             'min_cases_quick': 60,
+             'max_seconds_quick': 600,
+             'max_seconds_thorough': 14400,
              'floors': {'3-clusters-binding-limit': 0.25, 'template-partial': 0.4, 'template-all': 0.5, 'cfg-tight-weight': 0.6, 'cfg-tight-sigops': 0.5, 'cfg-minfee': 0.6, 'template-delivered': 0.4,
                         'template-with-prioritised-tx': 0.06, 'history-with-reorg': 0.5},
              'rule': 'templates on mempool histories; non-trivial = a non-empty template built from a pool of >= 3 clusters that excludes at least one pool transaction'}]}
